@@ -1052,6 +1052,12 @@ func streamCache(o opts, focus string) {
 		if directed == 5 && focus != "C09" {
 			conf = kioshun.Config{EvictionPolicy: kioshun.SieveTinyLFU, ShardCount: 1, MaxSize: pick(rng, []int64{100, 300, 1000}), StatsEnabled: true, ProbationRatio: pick(rng, []uint8{0, 60})}
 			lst, wmode = 3, 0
+			if t%12 == 11 {
+				// weighted variant: unit weights up to the budget, then one update that needs dozens of evictions
+				conf.MaxSize = pick(rng, []int64{100, 300})
+				conf.MaxCost = conf.MaxSize
+				wmode = 1
+			}
 		}
 		r := newCacheRun(m, rng, t, conf, lst, wmode, focus)
 		r.forceQueue = t%3 == 1 && focus != "C09"
@@ -1078,6 +1084,11 @@ func streamCache(o opts, focus string) {
 			}
 			for i := 0; i < 3; i++ {
 				r.step(w, opSet, n+i, -1, 1, 0)
+			}
+			if conf.MaxCost > 0 {
+				// a cost-growing update far beyond the 32-step bounded pass: the forced repair must evict, notify and count each
+				r.step(w, opSet, n-1, -1, int64(n*4/5), 0)
+				r.step(w, opSet, n/2, -1, int64(n/2), 0)
 			}
 			r.step(w, opStats, 0, 0, 0, 0)
 			nops = 30
